@@ -44,6 +44,7 @@ def to_schedule(hist, sid, rng, cfg, observe, maint, with_every=2, biglen=0):
     """Model history -> driver schedule: integer transaction ids, unique value tokens, maintenance
     actions between steps, CommitWith for every with_every-th commit, Reopen + Dump at the end."""
     ops, n, closed, ncommit = [], 0, False, 0
+    active = set()
     for h in hist:
         o = h["op"]
         if o == "Close":
@@ -51,9 +52,12 @@ def to_schedule(hist, sid, rng, cfg, observe, maint, with_every=2, biglen=0):
             continue
         t = int(str(h["t"]).lstrip("t"))
         if o == "Begin":
+            active.add(t)
             ops.append({"op": "Begin", "t": t, "upd": bool(h["upd"])})
         elif o in ("Get", "Del"):
             ops.append({"op": o, "t": t, "k": h["k"]})
+        elif o == "Scan":
+            ops.append({"op": "Scan", "t": t})
         elif o == "Set":
             n += 1
             op = {"op": "Set", "t": t, "k": h["k"], "v": "v%d" % n}
@@ -69,8 +73,12 @@ def to_schedule(hist, sid, rng, cfg, observe, maint, with_every=2, biglen=0):
             ops.append({"op": "Discard", "t": t})
         else:
             raise Undecided("unknown model action %r" % o)
+        if o in ("Commit", "Discard"):
+            active.discard(t)
         if maint and not closed and rng.random() < 0.3:
             ops += [dict(x) for x in rng.choice(MAINT)]
+            if not active and rng.random() < 0.4:     # restart in the middle of a history (no transaction open)
+                ops.append({"op": "Reopen"})
     if closed:
         ops.append({"op": "Reopen"})
     elif maint and rng.random() < 0.5:
@@ -88,7 +96,7 @@ def project(ev):
         return {"e": "Maint", "ok": False}
     if e == "Commit":
         return {"e": "Commit", "t": ev["t"], "r": ev["r"], "vers": ev["vers"], "nk": ev["nk"]}
-    return {k: ev[k] for k in ("e", "t", "rts", "upd", "k", "v", "r", "ok", "ents") if k in ev}
+    return {k: ev[k] for k in ("e", "t", "rts", "upd", "k", "v", "r", "ok", "ents", "res") if k in ev}
 
 
 def run_driver(ctx, scheds):
@@ -158,13 +166,20 @@ def run(ctx):
     m1cfgs = ["MC_Oracle_err.cfg"] if c04 else ["MC_Oracle.cfg"]
     if not quick:
         m1cfgs = ["MC_Oracle_err.cfg", "MC_Oracle_collide.cfg"] if c04 else ["MC_Oracle_big.cfg", "MC_Oracle_collide.cfg"]
-    m1 = []
-    for c in m1cfgs:
-        r = ctx.tlc_or_undecided("Oracle", c, timeout=2400, coverage=not quick)
-        if r.violated:
-            raise Undecided("M1: Oracle.tla violates %s under %s: the specification (design layer) needs attention\n%s" % (r.violated, c, r.out[-2500:]))
-        ctx.log("M1 %s: %d generated, %d distinct, depth %d (%.0fs)" % (c, r.generated, r.distinct, r.depth, r.wall))
-        m1.append((c, r))
+    ctx._specdir()
+    import concurrent.futures as cf
+
+    def run_m1():
+        out = []
+        for c in m1cfgs:
+            r = ctx.tlc_or_undecided("Oracle", c, timeout=2400, coverage=not quick, workers=max(2, ctx.workers - 2))
+            if r.violated:
+                raise Undecided("M1: Oracle.tla violates %s under %s: the specification (design layer) needs attention\n%s" % (r.violated, c, r.out[-2500:]))
+            ctx.log("M1 %s: %d generated, %d distinct, depth %d (%.0fs)" % (c, r.generated, r.distinct, r.depth, r.wall))
+            out.append((c, r))
+        return out
+    m1pool = cf.ThreadPoolExecutor(max_workers=1)
+    m1fut = m1pool.submit(run_m1)        # M1 runs while the histories are generated, executed and validated
     # ---------------------------------------------------------------- M2
     hists = []
     num = 150 if quick else 1500
@@ -213,7 +228,6 @@ def run(ctx):
     # ---------------------------------------------------------------- M3
     rejected = []
     parts = [p for p in chunks(list(range(len(tl))), max(1, min(ctx.workers, 6))) if p]
-    import concurrent.futures as cf
     with cf.ThreadPoolExecutor(max_workers=len(parts)) as ex:
         futs = [(part, ex.submit(ctx.validate_traces, "TxnPropTrace", "TxnPropTrace.cfg", [tl[i] for i in part], "Txn", 1500)) for part in parts]
         for part, f in futs:
@@ -236,6 +250,7 @@ def run(ctx):
             rp = ctx.save_replay("violation-%d.json" % sid, {"schedule": scheds[sid], "rejected_line": line, "event": traces[sid][line],
                                                              "expected": want, "trace": traces[sid][:line + 1]})
             ctx.violation(rp, "reply contradicts the transaction reference: %s expected %s" % (json.dumps(pev), want))
+    m1 = m1fut.result()
     # ------------------------------------------------------- binding self-test
     c1 = c2 = None
     for t in tl:
